@@ -583,6 +583,47 @@ var c05Mutations = []c05Mutation{
 			c.setPost(docString(ed))
 		}
 	}},
+	{"raw_query_smuggling", func(c *c05Case) {
+		// the genuine signed triple is sent in an encoding style of its own (a verifier has to use the octets as
+		// received); beside it the query carries forged values under names a form parser also maps to the parameters
+		x := c.Req.Style.Finish(c.Node.Clone(), c.rng)
+		m := &spsim.RedirectMsg{Param: "SAMLRequest", Value: spsim.DeflateB64(x), RelayState: c.Relay, HasRelay: c.HasRelay, SigAlg: c.Alg, Pct: []string{spsim.PctLower, spsim.Pct20, spsim.PctAll, spsim.PctGo}[c.rng.Intn(4)]}
+		if err := m.Sign(c.keyA().RSA); err != nil {
+			panic(err)
+		}
+		c.record(c.keyA(), "redirect", c.Node, c.Relay, c.HasRelay, c.Alg)
+		n, what := c.editedNode()
+		c.Labels = append(c.Labels, what)
+		evilReq := url.QueryEscape(spsim.DeflateB64(c.unsignedXML(n)))
+		evilRelay := url.QueryEscape("https://evil-" + randHex(c.rng, 3) + ".example/")
+		var forged string
+		switch c.rng.Intn(7) {
+		case 0:
+			forged = "SAMLReques%74=" + evilReq
+		case 1:
+			forged = "%53AMLRequest=" + evilReq
+		case 2:
+			forged = "RelaySta%74e=" + evilRelay
+		case 3:
+			forged = "SAMLRequest=" + evilReq
+		case 4:
+			forged = "RelayState=" + evilRelay
+		case 5:
+			forged = "x=1;SAMLRequest=" + evilReq
+		default:
+			forged = "SAMLRequest=" + evilReq + "&RelayState=" + evilRelay
+		}
+		c.Binding = "redirect"
+		c.Method, c.Body = "GET", ""
+		switch c.rng.Intn(3) {
+		case 0:
+			c.Query = forged + "&" + m.RawQuery()
+		case 1:
+			c.Query = m.RawQuery() + "&" + forged
+		default: // forged values in a POST body, the signed triple in the query
+			c.Method, c.Query, c.Body = "POST", m.RawQuery(), forged
+		}
+	}},
 	{"arbitrary_parameter_bytes", func(c *c05Case) {
 		m := c.signedRedirect(c.Node, c.keyA(), c.Relay, c.HasRelay, c.Alg)
 		q := url.Values{}
